@@ -227,3 +227,103 @@ contract(Contract(
         ("    transformer(element)\n", "", None, ["post[applied_to_element_once"]),
     ],
 ))
+
+
+# --------------------------------------------------------------------------- coalesce_raw_text_nodes.<locals>.transformer
+def _set_children(ex, node, args, kwargs):
+    """`x.children = v`: a str goes into the text field of x (the heap field the rewrites read); a list replaces the child
+    list of x and is logged (SET_CHILDREN) so that the postcondition can speak about it"""
+    from vfcore.values import VList
+    base, v = args
+    if isinstance(v, (VList, list)):
+        ex.log.append(("SET_CHILDREN", {"element": base, "children": v}, None))
+        return None
+    # C04/C08/C09: a text is only ever written into a RawText node (never into a code span, literal, inline HTML ...)
+    ex.prove("call", "set_text.only_into_rawtext", FT(is_rawtext(ex, base.t)), ["C04", "C08", "C09"], None, src="x.children = <str> only for RawText x")
+    h = ex.unit.heap_arrays(ex, "RawTextEl.children")
+    ex.heap["RawTextEl.children"] = z3.Store(h, base.t, ex.z(v))
+    ex.log.append(("SET_TEXT", {"element": base, "text": v}, None))
+    return None
+
+
+def _stored_once(ex):
+    sets = [e for e in ex.log if e[0] == "SET_CHILDREN"]
+    built = ex.envs[0].get("new_children")
+    if not sets:
+        return built is None          # no list was built (the element has no child list), none is stored
+    if len(sets) != 1 or built is None:
+        return False
+    stored = sets[0][1]["children"]
+    same_list = stored is built or (getattr(stored, "arr", 0) is getattr(built, "arr", 1) and getattr(stored, "length", 0) is getattr(built, "length", 1))
+    return ex.b(ex.truth(ex.eq(sets[0][1]["element"], ex.envs[0]["element"]))) if same_list else False
+
+
+C_DEFS = {
+    "raw(x)": "isinst(x, 'marko.inline.RawText')",
+    "softbreak(x)": "isinst(x, 'marko.inline.LineBreak') and x.soft",
+    # what is known about source position m once it has been consumed: role 0 = kept as an output element of its own,
+    # role 1 = a soft break swallowed by the RawText run before it, role 2 = a RawText merged into that run
+    "consumed_ok(m)": "0 <= pos[m] and ite(role[m] == 0, implies(m > 0, pos[m] == pos[m - 1] + 1) and implies(m == 0, pos[m] == 0),"
+                      " m > 0 and pos[m] == pos[m - 1] and ite(role[m] == 1, softbreak(children[m]) and (role[m - 1] == 0 or role[m - 1] == 2)"
+                      " and raw(children[m - 1]), role[m] == 2 and raw(children[m]) and role[m - 1] == 1))",
+}
+
+contract(Contract(
+    target=M + ":coalesce_raw_text_nodes.<locals>.transformer",
+    props=["C08", "C09", "C04", "C12"],
+    assumes=["Marko element records (children list / text field as in the other doc_transforms contracts); that the nodes of one "
+             "children list are distinct objects (a tree) is not needed for the clauses stated here",
+             "the text written into the head of a run (its own text and the followers' texts joined by newline) is checked by the "
+             "function-level sweep coalesce_spec_sweep, not here"],
+    params={"element": "ref:Element"},
+    heap={"RawTextEl.children": "str"},
+    types={"new_children": "list[ref:Element]", "children": "list[ref:Element]", "child": "ref:Element", "coalesced_text": "str",
+           "i": "int", "j": "int", "next_elem": "ref:Element", "following_elem": "ref:Element", "role": "list[int]", "pos": "list[int]"},
+    calls={
+        "hasattr": Callee("custom", handler=true_),
+        "Element.children": Callee("attrfn", handler=children_attr),
+        "Element.soft": Callee("attr", ret="bool"),
+        "set:Element.children": Callee("custom", handler=_set_children),
+    },
+    ghost={"role": "[]", "pos": "[]"},
+    hooks=[
+        ("after", "coalesced_text = child.children", "role.append(0); pos.append(len(new_children))"),
+        ("after", "j += 2", "role.append(1); pos.append(len(new_children)); role.append(2); pos.append(len(new_children))"),
+        ("before", "call:new_children.append#2", "role.append(0); pos.append(len(new_children))"),
+    ],
+    defs=C_DEFS,
+    loops={
+        0: Loop(inv={
+            "range": "0 <= i and i <= len(children) and len(role) == i and len(pos) == i",
+            "count": "len(new_children) == ite(i == 0, 0, pos[i - 1] + 1)",
+            "consumed": "all(consumed_ok(m) for m in range(i))",
+            # every output element is the source element at the start of its run, the very same object
+            "kept_objects": "all(implies(role[m] == 0, pos[m] < len(new_children) and new_children[pos[m]] == children[m]) for m in range(i))",
+        }, modifies=["role", "pos"], decreases="len(children) - i"),
+        1: Loop(inv={
+            "range": "i + 1 <= j and j <= len(children) and len(role) == j and len(pos) == j and i < len(children) and raw(children[i]) and child == children[i]",
+            "head": "role[i] == 0 and pos[i] == len(new_children) and all(implies(m > i, pos[m] == len(new_children) and role[m] != 0) for m in range(j))",
+            "consumed": "all(consumed_ok(m) for m in range(j))",
+            "kept_objects": "all(implies(role[m] == 0, pos[m] < len(new_children) and new_children[pos[m]] == children[m]) for m in range(i))",
+            "count": "len(new_children) == ite(i == 0, 0, pos[i - 1] + 1)",
+            "ends_on_rawtext": "(role[j - 1] == 0 or role[j - 1] == 2) and raw(children[j - 1]) and pos[j - 1] == len(new_children)",
+        }, modifies=["role", "pos"], decreases="len(children) - j"),
+    },
+    ensures={
+        # C04/C08/C09: the new child list is the old one with, in every maximal run RawText (soft-break RawText)*, everything
+        # behind the first RawText removed -- nothing else is removed, nothing is added or reordered, hard breaks, code
+        # spans and every other node stay where they are
+        "only_merged_nodes_removed": "implies(len(role) > 0, len(role) == len(children) and all(consumed_ok(m) for m in range(len(children)))"
+                                     " and all(implies(role[m] == 0, new_children[pos[m]] == children[m]) for m in range(len(children)))"
+                                     " and len(new_children) == pos[len(children) - 1] + 1)",
+        # ... and that list (the very object built in the loop) becomes the element's child list, once
+        "stored_once": Clause(_stored_once),
+    },
+    canaries=[
+        ("                            and next_elem.soft\n", "", None, ["consumed"]),
+        ("                        i = j  # Skip all the nodes we coalesced", "                        i = j + 1", None, ["inv-preserve[loop0"]),
+        ("                            and isinstance(following_elem, inline.RawText)", "                            and isinstance(following_elem, (inline.RawText, inline.CodeSpan))", None, ["consumed"]),
+        ("            element.children = new_children", "            element.children = children", None, ["post[stored_once"]),
+        ("                if isinstance(child, inline.RawText):", "                if isinstance(child, (inline.RawText, inline.CodeSpan)):", None, ["set_text.only_into_rawtext", "inv-"]),
+    ],
+))
